@@ -525,8 +525,10 @@ class RemoteBitrateEstimator:
         timestamp = abs_send_time << 8
         update_estimate = False
 
-        # make note of SSRC
+        # make note of SSRC, a REMB report can list at most 255 of them
         self.ssrcs[ssrc] = arrival_time_ms
+        if len(self.ssrcs) > 255:
+            del self.ssrcs[min(self.ssrcs, key=self.ssrcs.__getitem__)]
 
         # update incoming bitrate
         if self.incoming_bitrate.rate(arrival_time_ms) is not None:
